@@ -24,6 +24,13 @@ func (e *executor[R]) PreExecute(exec policy.ExecutionInternal[R]) *common.Polic
 				ExecutionAttempt: exec.CopyWithResult(nil),
 			})
 		}
+		// If the wait ended because the execution was canceled, report the cancellation result, such as
+		// ErrExecutionCanceled, rather than the bare context error
+		if !errors.Is(err, ErrFull) {
+			if canceled, cancelResult := exec.IsCanceledWithResult(); canceled {
+				return cancelResult
+			}
+		}
 		return internal.FailureResult[R](err)
 	}
 	return nil
